@@ -156,6 +156,17 @@ def _c16_check(sim, srv, pool, cls):
             if not re.match(r"usage: " + re.escape(cmd) + r"(\s|$)", rep):
                 sim.violate("C16", "member_help", f"'{cmd} {flag}' answered with {rep[:70]!r}")
                 return
+            # "... with -h/--help describing it": the first line of the member's (possibly inherited) docstring
+            member = inspect.getattr_static(cls, cmd.replace("-", "_"))
+            target = member.fget if isinstance(member, property) else (member.__func__ if isinstance(member, staticmethod) else member)
+            if not (isinstance(member, property) and member.fset is not None):
+                doc = inspect.getdoc(getattr(cls, cmd.replace("-", "_"))) if not isinstance(member, property) else inspect.getdoc(member)
+                if doc:
+                    first = doc.strip().split("\n", 1)[0].strip()
+                    squeeze = lambda t: re.sub(r"\s+", "", t)
+                    if squeeze(first.replace("%%", "%")) not in squeeze(rep):
+                        sim.violate("C16", "member_description", f"'{cmd} {flag}' does not describe the member: {first!r} missing from {rep[:90]!r}")
+                        return
     replies = top.replies()
     if top_idx >= len(replies):
         sim.violate("C16", "help_unanswered", f"top-level '{flag}' got no reply")
